@@ -84,6 +84,21 @@ func clashPair(r *wvlib.Rng, shape string) (*wvlib.Build, *wvlib.Build) {
 		t1, t2 := fmt.Sprintf("a.bin.butler-rename-%d", k), fmt.Sprintf("b.bin.butler-rename-%d", 3-k)
 		old.Entries = []wvlib.BEntry{f("a.bin", x), f("b.bin", y), f(t1, z), f(t2, r.Bytes(70))}
 		nw.Entries = []wvlib.BEntry{f("a.bin", y), f("b.bin", x), f(t1, z), f(t2, old.Entries[3].Data)}
+	// ---- shapes the model's analysis singled out (Props/C02Kinds.lean, g5..g8)
+	case "dir->symlink-into-kept-dir": // g5: the ghost a/f is deleted THROUGH the new symlink a -> b
+		old.Entries = []wvlib.BEntry{f("a/f.bin", x), f("b/f.bin", y), f("keep.bin", z)}
+		nw.Entries = []wvlib.BEntry{{Path: "a", Kind: 'l', Dest: "b"}, f("b/f.bin", y), f("keep.bin", z)}
+	case "symlink->file-copy-of-its-target": // g6: s -> b becomes a regular file holding old b, b itself is patched
+		y2 := append([]byte(nil), y...)
+		y2[len(y2)/2] ^= 1
+		old.Entries = []wvlib.BEntry{{Path: "s", Kind: 'l', Dest: "b.bin"}, f("b.bin", y), f("keep.bin", z)}
+		nw.Entries = []wvlib.BEntry{f("s", y), f("b.bin", y2), f("keep.bin", z)}
+	case "emptydir->file-copy": // g7: an empty directory becomes a file that is a copy of an unchanged old file
+		old.Entries = []wvlib.BEntry{{Path: "e", Kind: 'd'}, f("x.bin", x), f("keep.bin", z)}
+		nw.Entries = []wvlib.BEntry{f("e", x), f("x.bin", x), f("keep.bin", z)}
+	case "file->symlink-file-renamed": // g8: a file becomes a symlink, the file itself is renamed elsewhere
+		old.Entries = []wvlib.BEntry{f("a.bin", x), f("keep.bin", z)}
+		nw.Entries = []wvlib.BEntry{{Path: "a.bin", Kind: 'l', Dest: "keep.bin"}, f("c.bin", x), f("keep.bin", z)}
 	case "dir->symlink-plain":
 		old.Entries = []wvlib.BEntry{f("d/x.bin", x), f("keep.bin", z)}
 		nw.Entries = []wvlib.BEntry{{Path: "d", Kind: 'l', Dest: "elsewhere"}, f("keep.bin", z)}
@@ -93,7 +108,8 @@ func clashPair(r *wvlib.Rng, shape string) (*wvlib.Build, *wvlib.Build) {
 	return old, nw
 }
 
-var clashShapes = []string{"dir->file-new", "dir->file-renamed", "file->dir-containing-own-rename", "dir->symlink-child-renamed-out"}
+var clashShapes = []string{"dir->file-new", "dir->file-renamed", "file->dir-containing-own-rename", "dir->symlink-child-renamed-out",
+	"dir->symlink-into-kept-dir", "symlink->file-copy-of-its-target", "emptydir->file-copy", "file->symlink-file-renamed"}
 var benignKindShapes = []string{"symlink->file", "file->symlink", "symlink->dir", "emptydir->file", "file->dir-not-source", "dir->symlink-plain", "temp-name-lookalike", "temp-name-lookalike-2"}
 
 func writeBuildListing(path string, c *tlc.Container, b *wvlib.Build) {
